@@ -8,24 +8,32 @@ T2: a source repository (4 revisions, 3 file ids, one signature) is built per fo
 with real commits; its records (revisions, inventories, CHK pages, texts — knit
 deltas with their compression parents —, signature) form a catalogue.  Random
 scripts of write-group sessions on an empty target (2a, 2a stacked on a base
-repository, pack-0.92, 1.9 stacked): start, single-record insertions through
+repository, pack-0.92, 1.9 stacked, and 2a / pack-0.92 opened through breezy's own
+smart server as a RemoteRepository: the group is started over RPC and held as
+tokens, resumed in the VFS-backed real repository by the first insertion, checked
+with the check_write_group RPC on resume): start, single-record insertions through
 `<vf>.insert_record_stream` (whole revisions with chosen omissions: inventory,
 CHK pages, texts, parent inventories, delta bases), a record stream that raises
 mid-way (fault), then abort | commit (+abort when refused) | suspend → new
 Repository object → resume with the returned / a subset of / unknown / malformed /
-repeated tokens → more insertions → commit | abort | suspend again.  After EVERY
+repeated tokens → more insertions → commit | abort | suspend again | the lock is
+released with the group still open (unlock aborts it).  After EVERY
 operation the target directory is observed through a fresh Repository object:
 key sets of every pack listed in pack-names, suspended packs in upload/, and the
-public API (all_revision_ids, inventories/texts/signatures keys); the model gets
+public API (all_revision_ids, inventories/texts/signatures keys) — and the same
+public API through the object that ran the operation; the model gets
 every script prefix as its own line and must produce the same results
 (ok / tokens / exception class) and the same state.
 
 Oracle (no model): abort and refused commit leave pack-names (literal names) and
 all public key sets exactly as they were when the group was opened / before the
-commit; the public key sets equal the union of the listed packs' index keys; a
+commit — also as seen by the aborting / refused object itself (no leftover
+aggregate indices), and outside a write group that object sees what a fresh object
+sees; the public key sets equal the union of the listed packs' index keys; a
 twin target that commits the same insertions directly must end with the same
-pack-names and the same accept/refuse as suspend → reopen → resume → commit;
-tokens returned by suspend are 32 lower-case hex digits and name files in upload/.
+pack-names and the same accept/refuse as suspend → reopen → resume → commit
+(one or several cycles); tokens returned by suspend are 32 lower-case hex digits
+and name files in upload/.
 
 Finding on the unchanged code (committed known finding; family computed from the failing
 script, see oracle()):
@@ -58,6 +66,11 @@ Mutants (scratch worktree /var/tmp/wt-C06; "caught" = unclassified oracle violat
  R1  fix 0430fe1 reverted (resumed packs not validated before finishing)   -> caught: plain VIOLATION
      (refused commit removed a suspended pack from upload/; abort raised NoSuchFile) + T2
  H1  harmless: token list comprehension rewritten as a loop                            -> clean
+ N1  PackRepository.unlock: open write group forgotten instead of aborted   -> T2 (corpus unlock-with-open-resumed-group:
+     the resumed pack stays in upload/); no visible effect, so no oracle violation
+ N2  _abort_write_group: the new pack's indices stay in the aggregate indices          -> caught: the aborting object itself
+     still lists the aborted keys (same-object oracle)
+ N3  RemoteRepository._set_real_repository: the RPC-held group is not resumed in the real repository -> T2 (remote flavour)
 """
 import os
 import re
@@ -68,6 +81,9 @@ THEOREMS = [
     "abort_noop", "abort_keeps_packs", "no_commit_no_change", "refused_commit_noop", "token_wellformed",
     "suspend_resume_commit_eq_commit_partial", "resume_rejects_bad_tokens",
     "stale_after_abort_witness", "suspend_resume_witness", "abort_restores_object_partial",
+    "inventoryProblems_false_iff", "commit_accepted_iff", "accepted_commit_complete", "missing_inventory_refused",
+    "missing_chk_root_refused", "missing_text_refused", "resumed_wf_invariant", "stale_tracks_inserts",
+    "suspend_resume_cycles_eq_commit",
 ]
 RULE = ("case = (target flavour, script of write-group sessions over the record catalogue); one evaluation per "
         "script prefix (state observed after every operation); non-trivial = the script contains a refused commit, "
@@ -84,8 +100,8 @@ TRUSTED = [
     "what a record needs at commit time (compression parent, inventory parents, chk roots, page items) is read from the source repository",
 ]
 
-FLAVOURS_QUICK = ("2a", "pack-0.92", "2a-stacked")
-FLAVOURS_ALL = ("2a", "pack-0.92", "2a-stacked", "1.9-stacked", "rich-root-pack")
+FLAVOURS_QUICK = ("2a", "pack-0.92", "2a-stacked", "2a-remote")
+FLAVOURS_ALL = ("2a", "pack-0.92", "2a-stacked", "2a-remote", "1.9-stacked", "rich-root-pack", "pack-0.92-remote")
 
 _KIND = {"revisions": "r", "inventories": "i", "chk_bytes": "c", "texts": "t", "signatures": "s"}
 
@@ -222,7 +238,7 @@ def source_for(fmt):
 # script generation (needs the catalogue)
 # --------------------------------------------------------------------------
 
-def gen_script(rng, src, stacked):
+def gen_script(rng, src, stacked, remote=False):
     """list of ops: ["S"], ["I", vf, keyidx], ["F", [records…], k] (stream failing after k), ["A"], ["C"],
     ["U"], ["R", [token specs]]; token spec: ["k", n] n-th issued token, ["m", text] malformed, ["u"] unknown"""
     ops = []
@@ -322,7 +338,11 @@ def gen_script(rng, src, stacked):
         if resumed is None:
             continue
         e = rng.random()
-        if e < 0.3:
+        if e < (0.12 if resumed else 0.06):
+            # the lock is released with the group still open: PackRepository.unlock aborts it and raises
+            ops.append(["O"])
+            live = [t for t in live if t not in resumed]
+        elif e < 0.3:
             ops.append(["A"])
         elif e < 0.65:
             ops.append(["C"])
@@ -337,7 +357,10 @@ def gen_script(rng, src, stacked):
             issued += n_tok
             live += newtoks
             if rng.random() < 0.3:
-                ops.append([rng.choice(["A", "C", "U"])])   # outside a write group: E:NotInWG
+                # outside a write group: E:NotInWG / AttributeError.  (RemoteRepository.suspend_write_group documents
+                # "returns an empty list if no write group is active" as long as it has no VFS-backed real
+                # repository yet: not generated for the remote flavours)
+                ops.append([rng.choice(["A", "C"] if remote else ["A", "C", "U"])])
     return ops
 
 
@@ -353,7 +376,8 @@ class Target:
     def __init__(self, flavour, src_cache):
         from breezy.controldir import ControlDir, format_registry
         self.flavour = flavour
-        fmt = flavour.replace("-stacked", "")
+        self.remote = flavour.endswith("-remote")
+        fmt = flavour.replace("-stacked", "").replace("-remote", "")
         self.stacked = flavour.endswith("-stacked")
         self.src = src_cache(fmt)
         self.dir = env.fresh_dir("c06t")
@@ -366,19 +390,32 @@ class Target:
             bb.repository.fetch(self.src.repo, revision_id=self.src.revs[0])
             br.set_stacked_on_url(bb.base)
         self.names = {}       # real pack name -> canonical content
+        self.server = None
+        if self.remote:
+            # the same directory through breezy's own smart server (bzr://127.0.0.1:<port>/): the write-group
+            # API of RemoteRepository (start over RPC, resumed in the VFS-backed real repository on first use)
+            from breezy import transport as T
+            from breezy.bzr.smart import server as S
+            self.server = S.SmartTCPServer(T.get_transport_from_path(self.dir), client_timeout=120)
+            self.server.start_server("127.0.0.1", 0)
+            self.server.start_background_thread("-c06")
+            self.url = self.server.get_url()
         self.open()
 
     def open(self):
         from breezy.branch import Branch
-        self.repo = Branch.open(self.dir).repository
+        self.repo = Branch.open(self.url if self.remote else self.dir).repository
         self.repo.lock_write()
 
     def reopen(self):
+        """unlock, drop the object, open and lock a new one; returns what unlock raised (or None)"""
+        err = None
         try:
             self.repo.unlock()
-        except Exception:
-            pass
+        except Exception as e:
+            err = e
         self.open()
+        return err
 
     def close(self):
         try:
@@ -387,6 +424,30 @@ class Target:
             self.repo.unlock()
         except Exception:
             pass
+        if self.server is not None:
+            try:
+                self.server.stop_background_thread()
+            except Exception:
+                pass
+
+    def self_view(self):
+        """the public key sets as THIS Repository object (the one that ran the operations) sees them"""
+        r = self.repo
+        if self.remote and getattr(r, "_real_repository", None) is None:
+            # asking a RemoteRepository for its versioned files would create the VFS-backed real repository (and
+            # move a group held as tokens into it): the pure-RPC states are left alone
+            return None
+        try:
+            api = set()
+            api.update(self.src.canon("revisions", (x,)) for x in r.all_revision_ids())
+            api.update(self.src.canon("inventories", k) for k in r.inventories.keys())
+            api.update(self.src.canon("texts", k) for k in r.texts.keys())
+            api.update(self.src.canon("signatures", k) for k in r.signatures.keys())
+            if getattr(r, "chk_bytes", None) is not None:
+                api.update(self.src.canon("chk_bytes", k) for k in r.chk_bytes.keys())
+            return sorted(api)
+        except Exception as e:
+            return "ERR:%s: %s" % (type(e).__name__, str(e)[:120])
 
     def insert(self, vf, n, fail_after=None):
         key = next(k for (v, k), m in self.src.num.items() if v == vf and m == n)
@@ -444,12 +505,17 @@ def _exc_class(e):
         return "E:Check"
     if isinstance(e, AssertionError):
         return "E:Assertion"
+    if type(e).__name__ == "UnknownErrorFromSmartServer" and b"AssertionError" in tuple(getattr(e, "error_tuple", ()) or ()):
+        # the same AssertionError raised in the smart server (RemoteRepository.resume_write_group -> check_write_group)
+        return "E:Assertion"
     if isinstance(e, errors.BzrError):
         m = str(e)
         if "already in a write group" in m:
             return "E:AlreadyInWG"
-        if "mismatched lock context" in m:
+        if "mismatched lock context" in m or m.strip() == "not in write group":
             return "E:NotInWG"
+        if "Must end write group before releasing write lock" in m:
+            return "E:MustEndWG"
     return "E:%s" % type(e).__name__
 
 
@@ -515,7 +581,12 @@ def run_real(flavour, ops, src_cache=source_for, direct=False):
                     res = "T:" + ("&".join(t.names[x] for x in toks) or "-")
                     group_recs = []
                 elif kind == "O":
-                    t.reopen()
+                    # (unlock with an open write group aborts the group; the BzrError it raises is swallowed by
+                    # @only_raises, the caller sees a normal return)
+                    err = t.reopen()
+                    if err is not None:
+                        res = _exc_class(err)
+                    group_recs = []
                 elif kind == "R":
                     real = []
                     for spec in op[1]:
@@ -533,6 +604,8 @@ def run_real(flavour, ops, src_cache=source_for, direct=False):
                 res = _exc_class(e)
             obs = t.observe()
             obs["in_wg"] = bool(t.repo.is_in_write_group())
+            obs["rpc_group"] = getattr(t.repo, "_write_group_tokens", None) is not None
+            obs["self_api"] = t.self_view()
             if not obs["in_wg"]:
                 resumed_recs = []
                 resumed_n = 0
@@ -651,12 +724,43 @@ FAMILY_STALE = "knit-missing-compression-parent-survives-abort"
 
 def oracle(ctx, case, ops, steps, issued, cps=None, chk=True, needs=None, alltexts=None):
     bad = []
+    stacked = case.get("flavour", "").endswith("-stacked")
     aborted_incomplete = False    # this Repository object aborted a group with a missing compression parent
     partial = False
     opened = None        # observation when the current group was opened
+    self_opened = None   # ... and what the Repository object that opened it saw itself
+    unusable = False     # the object raised AssertionError (duplicate tokens): nothing is expected of it
     prev = None
     for i, (op, (res, obs)) in enumerate(zip(ops, steps)):
         k = op[0]
+        sv = obs.get("self_api")
+        if k == "O":
+            unusable = False
+            self_opened = None
+        if res == "E:Assertion":
+            unusable = True
+        if sv is not None and not unusable:
+            # the SAME object that aborted / was refused / committed (not a fresh one) must see the same thing
+            if isinstance(sv, str):
+                if k in ("A", "C") and res in ("ok", "E:Check"):
+                    bad.append(("op %d %r (%s): the Repository object cannot list its own keys afterwards: %s" % (
+                        i, op, res, sv), None))
+            else:
+                if k in ("S", "R") and res == "ok" and prev is not None and isinstance(prev.get("self_api"), list):
+                    self_opened = prev["self_api"]
+                if k == "A" and res == "ok" and self_opened is not None and sv != self_opened:
+                    bad.append(("op %d abort: the aborting Repository object still sees %r (it saw %r before the group)" % (
+                        i, sorted(set(sv) ^ set(self_opened)), self_opened), None))
+                if k == "C" and res == "E:Check" and prev is not None and isinstance(prev.get("self_api"), list) \
+                        and sv != prev["self_api"]:
+                    bad.append(("op %d refused commit: the object's own view changed by %r" % (
+                        i, sorted(set(sv) ^ set(prev["self_api"]))), None))
+                if not obs["in_wg"] and not set(obs["api"]) <= set(sv):
+                    bad.append(("op %d %r (%s): the object that ran it does not see %r which a fresh object sees" % (
+                        i, op, res, sorted(set(obs["api"]) - set(sv))), None))
+                if not obs["in_wg"] and not stacked and set(sv) != set(obs["api"]):
+                    bad.append(("op %d %r (%s): outside a write group the object sees %r more than a fresh object" % (
+                        i, op, res, sorted(set(sv) - set(obs["api"]))), None))
         if set(obs["api"]) != set(obs["pack_union"]):
             bad.append("op %d %r: public key sets %r differ from the listed packs' keys %r" % (
                 i, op, obs["api"], obs["pack_union"]))
@@ -748,7 +852,7 @@ def run(ctx, n=None):
     items = []
     srcs = {}
     for fl in flavours:
-        srcs[fl] = source_for(fl.replace("-stacked", ""))
+        srcs[fl] = source_for(fl.replace("-stacked", "").replace("-remote", ""))
     corpus_dir = os.path.join(env.VERIF, "corpus", "C06")
     if os.path.isdir(corpus_dir):
         import json
@@ -757,9 +861,9 @@ def run(ctx, n=None):
             items.append((len(items), c["flavour"], c["ops"]))
     for i in range(n):
         fl = flavours[i % len(flavours)]
-        ops = gen_script(ctx.rng, srcs[fl], fl.endswith("-stacked"))
+        ops = gen_script(ctx.rng, srcs[fl], fl.endswith("-stacked"), fl.endswith("-remote"))
         items.append((len(items), fl, ops))
-    for it in equivalence_items(ctx, flavours, srcs, ctx.pick(18, 90)):
+    for it in equivalence_items(ctx, flavours, srcs, ctx.pick(30, 120)):
         items.append((len(items),) + it)
     results = ctx.pmap(_worker, items, chunksize=1)
     cases, lines, impls = [], [], []
@@ -775,8 +879,12 @@ def run(ctx, n=None):
             kinds[j] == "A" and results_s[j] == "ok" and j > 0 and kinds[j - 1] in "IF" for j in range(len(kinds)))
         ctx.case(case, nontrivial=nontrivial, n=len(ops))
         ctx.count("flavour:" + fl)
-        for k, r in zip(kinds, results_s):
+        for j, (k, r) in enumerate(zip(kinds, results_s)):
             ctx.count("op:%s:%s" % (k, r.split(":")[0] + (":" + r.split(":")[1] if r.startswith("E:") else "")))
+            if k == "O" and j > 0 and res["steps"][j - 1][1]["in_wg"]:
+                ctx.count("op:O:with-open-group")
+            if res["steps"][j][1].get("rpc_group"):
+                ctx.count("remote:group-held-as-tokens-over-rpc")
         last = res["steps"][-1][1]
         if last["upload_junk"] and not last["in_wg"]:
             ctx.count("scripts_leaving_unnamed_files_in_upload")
@@ -793,7 +901,7 @@ def run(ctx, n=None):
 # -- suspend/resume/commit ≡ commit, on the real code ------------------------
 
 def equivalence_items(ctx, flavours, srcs, n):
-    """pairs of scripts: (a) S, inserts, C, A   (b) S, inserts[:k], U, R(all), inserts[k:], [U, R(all)], C, A"""
+    """pairs of scripts: (a) S, inserts, C, A   (b) S, chunk, U, O, R(all), chunk, U, O, R(all), ..., rest, C, A"""
     out = []
     for i in range(n):
         fl = flavours[i % len(flavours)]
@@ -808,15 +916,21 @@ def equivalence_items(ctx, flavours, srcs, n):
                 r.remove(ctx.rng.choice(r))
             recs += [x for x in r if x not in recs]
         ins = [["I", vf, src.num[(vf, key)]] for vf, key in recs]
-        k = ctx.rng.randrange(0, len(ins) + 1)
         a = [["S"]] + ins + [["C"], ["A"]]
-        b = [["S"]] + ins[:k] + [["U"], ["O"], ["R", [["k", 0]] if k else []]] + ins[k:]
-        ntok = 1 if k else 0
-        if ctx.rng.random() < 0.4:
-            # suspend a second time: tokens = resumed ones + the new one
-            more = (1 if k else 0) + (1 if len(ins) > k else 0)
-            b += [["U"], ["O"], ["R", [["k", t] for t in range(ntok, ntok + more)]]]
-        b += [["C"], ["A"]]
+        # 1..3 cycles of (insert a chunk, suspend, new object, resume with all tokens of that suspend), then the
+        # rest; a chunk may be empty (theorem suspend_resume_cycles_eq_commit)
+        m = ctx.rng.choice((1, 1, 2, 3))
+        cuts = sorted(ctx.rng.randrange(0, len(ins) + 1) for _ in range(m))
+        pieces = [ins[x:y] for x, y in zip([0] + cuts, cuts + [len(ins)])]
+        b = [["S"]]
+        total = live_n = 0
+        for piece in pieces[:-1]:
+            b += piece
+            if piece:
+                live_n += 1
+            b += [["U"], ["O"], ["R", [["k", t] for t in range(total, total + live_n)]]]
+            total += live_n
+        b += pieces[-1] + [["C"], ["A"]]
         out.append((fl, a))
         out.append((fl, b))
     return out
